@@ -18,7 +18,9 @@ OutFams  == {"xml", "soap11", "soap12", "json", "yaml", "msgpack", "mprpc", "htt
 Soap     == {"soap11", "soap12"}
 First    == {"Client", "Server", "X", "Clientele"}     \* ("Clientele...": begins like Client, is not the Client family)
 Subs     == {<<>>, <<"A">>, <<"b", "uu">>, <<"Q", "R", "S">>}
-Msgs     == {"plain", "uni", "markup", "spaces", "long"}
+\* ctl: control characters (what XML 1.0 cannot carry at all): the fault arrives all the same - over the XML family with U+FFFD in
+\* their place ("same_repl" in an observation), over the others unchanged
+Msgs     == {"plain", "uni", "markup", "spaces", "long", "ctl"}
 Details  == {"none", "flat", "nested", "multi", "unikey", "falsy"}     \* falsy: leaves 0 and False
 Excs     == {"ValueError", "KeyError", "Hostile", "Chained", "SecretType", "BaseFaultLike"}
 Methods  == {"f", "g", "gen"}       \* gen: a generator function that raises before its first yield
